@@ -13,6 +13,7 @@ Emits (as plain data; the Lean side builds the `Tbl` from it and proves things a
   * tern / topLevel : `?:` production (token level of '?', %prec level) ; level of '(' '[' '.'
   * fnProds         : builtin functions (token, kind, arity)
   * literals        : operator literal -> token  (from lexer.l),  keywords: word -> token (NEW syntax)
+  * exprListLeftRec : is the recursive alternative of `ExprList` (the comma list) the left-recursive one?
 Fails closed: an alternative of `Expression` it cannot classify raises TranslateError.
 """
 import os
@@ -228,6 +229,21 @@ def extract(repo="/repo"):
                 G["bin"].append((tok, rule_prec(a[0]), k))
         else:
             raise TranslateError("unclassified Expression alternative: %s   calls=%r" % (" ".join(syms), cn))
+    # ---- ExprList, the comma list of update labels, for/while/if/switch heads and before_update/after_update: which side the
+    # recursion is on decides the order of the expr_comma() reductions, i.e. to which side a list of three or more elements nests
+    if "ExprList" not in rules:
+        raise TranslateError("nonterminal ExprList not found")
+    la = rules["ExprList"]
+    lbase = [a for a in la if a["symbols"] == ["Expression"] and not calls_of(a)]
+    lrec = [a for a in la if a not in lbase]
+    if len(la) != 2 or len(lbase) != 1 or [(c[0], c[1], c[2]) for c in calls_of(lrec[0])] != [(3, "expr_comma", "")]:
+        raise TranslateError("ExprList is not `Expression | <recursive alternative> { expr_comma() }` any more: %r" % [a["symbols"] for a in la])
+    if lrec[0]["symbols"] == ["ExprList", "','", "Expression"]:
+        G["exprlist_left"] = True
+    elif lrec[0]["symbols"] == ["Expression", "','", "ExprList"]:
+        G["exprlist_left"] = False
+    else:
+        raise TranslateError("unclassified recursive alternative of ExprList: %s" % " ".join(lrec[0]["symbols"]))
     for req in ("imply", "tern", "call", "paren", "intMin"):
         if not G.get(req):
             raise TranslateError("production %s not found" % req)
@@ -343,6 +359,9 @@ def emit(G):
     L.append("def minusTok : Nat := %d" % tid(G["intMin"]))
     L.append("/-- builtin functions: (keyword token name, kind, arity) -/")
     L.append("def fnProds : List (String × String × Nat) := [" + ", ".join("(%s, %s, %d)" % (lean_str(t), lean_str(k), a) for t, k, a in G["fn"]) + "]")
+    L.append("/-- the recursive alternative of `ExprList` (callback expr_comma at its end): `ExprList ',' Expression` (true: one reduction per")
+    L.append("    element, the tree grows to the left) or `Expression ',' ExprList` (false: all reductions at the end, it grows to the right) -/")
+    L.append("def exprListLeftRec : Bool := %s" % ("true" if G["exprlist_left"] else "false"))
     L.append("def atomProds : List String := [" + ", ".join(lean_str(a) for a in G["atoms"]) + "]")
     L.append("/-- operator literals of lexer.l: (text, token name) -/")
     L.append("def literals : List (String × String) := [" + ", ".join("(%s, %s)" % (lean_str(a), lean_str(b)) for a, b in G["literals"]) + "]")
